@@ -8,7 +8,7 @@ import sys, os, subprocess, shutil, json, glob, concurrent.futures as cf
 ROOT = "/verif"
 SCRATCH = os.environ.get("VERIF_SCRATCH", "/var/tmp/verif-scratch")
 flt = [a for a in sys.argv[1:] if not a.startswith("-")]
-jobs = 6
+jobs = 12
 RESULTS = {}
 claimed = {c["property_id"] for c in json.load(open(ROOT + "/MANIFEST.json"))["checks"]}
 
